@@ -77,6 +77,11 @@ CLAIMED["C03"] = dict(
     text="Decides the constant and wiring clauses: the recursion capacity FRF*(CRF-1)*CRF^(MAX-2) covers 4*TARGET_PROOF_SIZE for the constants compiled into each analysed configuration (0.66 % margin in production) and ProofBatch::generate asserts that bound; batch sizes derived from TARGET_PROOF_SIZE are rounded down; generator alias arities, ARRAY_LEN and PRSS_RECORDS_PER_BATCH agree; the challenge is mapped into [exclude_to, prime); the proof-field constants are what their names say; BatchToVerify::verify fails exactly on a non-zero recombined difference; verifier table indices are paired with the right table. The algebraic identity of the u/v tables and soundness against bit flips are not decided.",
     ref="§3 C03")
 
+CLAIMED["C06"] = dict(
+    technique="static analysis: expression-shape extraction and constant relation for the PRSS index packing, guard polarity of the offset bound, who-may-construct census, affine record-id families, provenance of PRSS indices in proof generation, variant table of indexed/sequential exclusivity, left/right symmetry census",
+    text="Decides the index-arithmetic clauses: (index << 32) + offset is injective on the offsets PrssIndex128::new admits (offset <= MAX_OFFSET < 2^32, struct built only in new), MAC and DZKP batches use disjoint record-id families/ranges, every PRSS draw in proof generation takes its index from the batch's RecordIdRange (exhaustion panics), a step cannot be used both indexed and sequentially, and the left and right streams are created for the same index with direction selecting the matching generator. That no execution ever repeats a (step, index) pair, and the AES/HKDF behaviour, are not decided.",
+    ref="§3 C06")
+
 NOT_APPLICABLE = {
     "C01": "end-to-end numerical equality of the MPC histogram with a plaintext reference over all inputs/shardings: no clause of it is visible in code shape; static analysis in reach cannot bound it (DESIGN.md §4)",
     "C07": "functional correctness of arithmetic/Boolean circuits over all operand values is numerical; would need symbolic execution of the circuits, a different technique family (DESIGN.md §4)",
